@@ -85,6 +85,26 @@ def ref_frame(b, beginstring=b"FIX.4.4"):
     return None
 
 
+def ref_frame_no_bodylength(b, beginstring=b"FIX.4.4"):
+    """Like ref_frame but ignoring the *value* of BodyLength (used to delimit a known finding)."""
+    head = b"8=" + beginstring + b"\x019="
+    n = len(b)
+    if n < len(head) + 2 + 7 or b[: len(head)] != head:
+        return "header"
+    trailer = n - 7
+    if b[trailer - 1] != SOH or b[trailer : trailer + 3] != b"10=" or b[n - 1] != SOH:
+        return "trailer"
+    ck = _digits(b[trailer + 3 : trailer + 6])
+    if ck is None:
+        return "checksum digits"
+    s = 0
+    for x in b[:trailer]:
+        s += x
+    if ck != s % 256:
+        return "checksum"
+    return None
+
+
 def ref_fields(b):
     """Split a frame accepted by ref_frame into [(tag bytes, value bytes)]; None if malformed."""
     out = []
@@ -258,3 +278,72 @@ def frame_fields(frame):
     for t, v in fs:
         d[bytes(t).decode("latin-1") if not hasattr(t, "decode") else t.decode("latin-1")] = v
     return d
+
+
+# --------------------------------------------------------------------------- event loop stubs
+import asyncio as _asyncio
+import types as _types
+
+
+class Yield:
+    """Awaitable that suspends the coroutine once and hands `what` to the harness trampoline."""
+
+    def __init__(self, what=None):
+        self.what = what
+
+    def __await__(self):
+        yield self
+
+
+async def _fake_sleep(d):
+    await Yield(("sleep", d))
+
+
+class VClock:
+    """Virtual wall clock in integer seconds (may be symbolic)."""
+
+    def __init__(self, t=1_700_000_000):
+        self.t = t
+
+    def time(self):
+        return self.t
+
+
+CLOCK = VClock()
+
+
+def install_loop(clock=None):
+    """Replace asyncio / time in asyncfix.connection by the trampoline stubs."""
+    global CLOCK
+    if clock is not None:
+        CLOCK = clock
+    connmod.asyncio = _types.SimpleNamespace(
+        sleep=_fake_sleep, CancelledError=_asyncio.CancelledError, create_task=None,
+        StreamReader=_asyncio.StreamReader, StreamWriter=_asyncio.StreamWriter)
+    connmod.time = CLOCK
+    return CLOCK
+
+
+class Reader:
+    """StreamReader stand-in: returns the scripted chunks, then EOF (b'')."""
+
+    def __init__(self, chunks):
+        self.chunks = [c for c in chunks]
+
+    async def read(self, n):
+        if self.chunks:
+            return self.chunks.pop(0)
+        return b""
+
+
+def drive_reader(conn, max_steps=64):
+    """Run conn.socket_read_task() until it has consumed all scripted chunks and seen EOF."""
+    co = conn.socket_read_task()
+    try:
+        for _ in range(max_steps):
+            co.send(None)  # returns at the first asyncio.sleep after the reader is gone
+            if conn._socket_reader is None:
+                return
+        raise RuntimeError("reader task did not finish")
+    finally:
+        co.close()
